@@ -51,6 +51,11 @@ CLAIMED = {
     text='Channels are specified from Kraus operators with Gaussian-integer entries in the documented index conventions (Choi (in,out,in,out), super-operator on row-major vec). TLC enumerates instances (dim_in, dim_out in 1..3 incl. non-square, 1..2 terms; 1..4 x 1..4 thorough; plus trace-preserving integer families) and proves on each that the three apply definitions agree on every matrix unit, the Choi<->super reshuffles are mutually inverse, the Choi matrix is Hermitian and trace preservation <=> Tr_out C = I. Every instance is replayed through all conversion and apply routines (numpy and torch where offered); Kraus forms obtained back are judged through the channel they define; the Bloch map through the C16-verified Gell-Mann coordinates; built-in noise channels at rational rates. Contractivity is decided on the classical subdomain (diagonal rational states x relabelling channels, d=4) where trace distance and fidelity are exact rationals: TLC proves monotonicity/symmetry/range on the exact values and get_trace_distance/get_fidelity are compared with them before and after the channel.',
     note='NOT covered: relative / von Neumann entropy (logarithms), contractivity for genuinely quantum state pairs, fidelity after a non-injective channel only as an inequality. Tolerance 1e-9 / 1e-8.',
     technique='TLA+ spec of channel representations over Z[i] and of classical contractivity over Q; TLC exhaustive instance enumeration; expected tables replayed into the code'),
+ 'C13': dict(
+    cat='model_checking', ref='6/C13',
+    text='Two exactly solvable two-qubit families are specified: Bell-diagonal states with integer weights (all ranks, separable-threshold and near-threshold weights) conjugated by local phased permutations, and pure states with Gaussian-integer amplitudes. TLC enumerates the grid and proves on every state: closed forms C = max(0, 2 p_max - 1), negativity = max(0, p_max - 1/2) lie in their ranges, C > 0 <=> negativity > 0 <=> NPT, and the partial transpose is PSD exactly when p_max <= 1/2 (exact rational LDL^T). Each state is replayed: get_concurrence_2qubit / get_negativity / get_eof_2qubit / get_gme_2qubit / is_ppt against the exact values and their defining monotone relations (finiteness, ranges, zero pattern, local-unitary invariance), get_concurrence_pure / get_eof_pure and the reduction of the mixed-state formulas on projectors. Convex-roof models (EOF, concurrence, GME, linear entropy) are evaluated at random parameter points of three scales with ensemble sizes max(rank,2)..8 and must never fall below the exact closed-form value.',
+    note='Exact families only (generic rank-4 states outside the Bell-diagonal LU orbit not covered). Tolerances 1e-6 (closed forms), 1e-7 slack for the upper bound.',
+    technique='TLA+ exact model of Bell-diagonal and pure two-qubit states with LDL^T PPT proofs; TLC exhaustive grid; replay into closed forms and variational models'),
  'C14': dict(
     cat='model_checking', ref='6/C14',
     text='Every Cayley table the library constructs (S_n, A_n, D_3..D_12, C_2..C_12, (Z/n)^* n<=24, V4, Q8) is exported and the group axioms are evaluated by TLC over ALL element triples; the group is identified by isomorphism invariants (order, element-order profile, commutativity) computed by TLC from the table and from the reference construction (permutations / presentations) in the spec; the left-regular form is checked to be a faithful homomorphism. Irreducible blocks: sum d^2 = |G|, #irreps = #classes (classes computed by TLC), and for groups whose characters are all rational (decided by TLC from the table) the integer characters must be class functions satisfying row orthogonality in Z. p(N) for N<=60 against the pentagonal recurrence, the Young-diagram list against the enumerated partition set, and the Young lattice is model-checked as a state machine (every standard filling with N<=8 / 10 is a state; branching rule and standardness invariants): get_all_young_tableaux must return exactly the states of each shape, distinct, hook-length many.',
